@@ -3011,4 +3011,568 @@ theorem onLastParked_exitsDone {c : Cfg} {s s' : State} {tag : Nat} {r : LPR} (h
                 · rw [respond_exitsDone h]; exact e3
   · cases h
 
+/-! ## stop-the-world bracket (C11) -/
+
+/-- extra well-formedness used by C11: a first stop-the-world stage exists, is enabled by default, and
+designated packets (stage tag 0xff) are outside the table -/
+structure Cfg.WF2 (c : Cfg) : Prop extends Cfg.WF c where
+  first_exists : ∃ f, f < c.L ∧ (c.info f).isFirstStw = true
+  first_enabled : ∀ b, (c.info b).isFirstStw = true → (c.info b).enabledByDefault = true
+  stw_closed : ∀ b, (c.info b).isStw = true → (c.info b).openByDefault = false
+
+theorem mem_curStages_first {c : Cfg} {f b : Nat} (hf : f < c.L) (h : (c.info f).isFirstStw = true) : f ∈ curStages c b := by
+  unfold curStages
+  simp [List.mem_filter, hf, h]
+
+/-- whenever `canOpenNow` holds, an enabled first stop-the-world bucket is open -/
+theorem canOpenNow_first {c : Cfg} {s : State} {b f : Nat} (h : canOpenNow c s b = true) (hf : f < c.L)
+    (hfirst : (c.info f).isFirstStw = true) (hen : (s.bkt f).enabled = true) : (s.bkt f).isOpen = true := by
+  unfold canOpenNow at h
+  simp only [Bool.and_eq_true, Bool.not_eq_true'] at h
+  have := (List.all_eq_true.mp h.2) f (mem_curStages_first hf hfirst)
+  simp only [Bucket.isDrained, hen, Bool.not_true, Bool.false_or, Bool.and_eq_true] at this
+  exact this.1
+
+/-- `isOpen` of buckets that are not sequentially opened is untouched by the loop; `enabled` of all -/
+def SameNS (c : Cfg) (s0 s : State) : Prop :=
+  ∀ k, (s.bkt k).enabled = (s0.bkt k).enabled ∧ ((c.info k).isSeq = false → (s.bkt k).isOpen = (s0.bkt k).isOpen)
+
+theorem updateLoop_opens_first (c : Cfg) (s0 : State) (bs : List Nat) : ∀ (s : State) (u : Bool), SameNS c s0 s →
+    ∀ b, ((updateLoop c s bs u).1.bkt b).isOpen = true → (s.bkt b).isOpen = false →
+      ∀ f, f < c.L → (c.info f).isFirstStw = true → (c.info f).isSeq = false → (s0.bkt f).enabled = true →
+        (s0.bkt f).isOpen = true := by
+  induction bs with
+  | nil => intro s u _ b h1 h2; simp only [updateLoop] at h1; rw [h1] at h2; cases h2
+  | cons b0 bs ih =>
+    intro s u hq b h1 h2 f hf hfirst hns hen
+    have fromOpen : canOpenNow c s b0 = true → (s0.bkt f).isOpen = true := by
+      intro hc
+      rw [← (hq f).2 hns]
+      exact canOpenNow_first hc hf hfirst (by rw [(hq f).1]; exact hen)
+    unfold updateLoop at h1
+    split at h1
+    · exact ih _ _ hq b h1 h2 f hf hfirst hns hen
+    · split at h1
+      · exact ih _ _ hq b h1 h2 f hf hfirst hns hen
+      · split at h1
+        · rename_i hc; exact fromOpen hc
+        · exact ih _ _ hq b h1 h2 f hf hfirst hns hen
+
+
+/-- if `on_last_parked` opens a sequentially opened bucket, the (enabled) first stop-the-world bucket
+was open on entry -/
+theorem onLastParked_opens_first (c : Cfg) (hwf : c.WF) (s s' : State) (tag : Nat) (r : LPR)
+    (h : onLastParked c s tag = some (s', r)) (b : Nat) (hb : (c.info b).isSeq = true)
+    (h1 : (s.bkt b).isOpen = false) (h2 : (s'.bkt b).isOpen = true)
+    (f : Nat) (hf : f < c.L) (hfirst : (c.info f).isFirstStw = true) (hen : (s.bkt f).enabled = true) :
+    (s.bkt f).isOpen = true := by
+  have hns : (c.info f).isSeq = false := by rw [hwf.seq_def, hfirst]; simp
+  unfold onLastParked at h
+  split at h
+  · rw [respond_isOpen c _ _ _ _ h, h1] at h2; cases h2
+  · split at h
+    · cases h
+    · split at h
+      · cases h
+      · split at h
+        · injection h with h; injection h with h1' _; subst h1'; rw [h1] at h2; cases h2
+        · split at h
+          · injection h with h; injection h with h1' _; subst h1'
+            rw [schedSentinels_isOpen, h1] at h2; cases h2
+          · rename_i hss
+            have hss' : (schedSentinels c s).2 = false := by simpa using hss
+            have hbk := schedSentinels_false c s hss'
+            have hq : SameNS c s (schedSentinels c s).1 := fun k => by rw [hbk]; exact ⟨rfl, fun _ => rfl⟩
+            have key : ((updateBuckets c (schedSentinels c s).1).1.bkt b).isOpen = true → (s.bkt f).isOpen = true := by
+              intro ho
+              have ho' : ((updateLoop c (schedSentinels c s).1 (List.range c.L) false).1.bkt b).isOpen = true := ho
+              exact updateLoop_opens_first c s _ _ false hq b ho' (by rw [hbk]; exact h1) f hf hfirst hns hen
+            split at h
+            · injection h with h; injection h with h1' _; subst h1'
+              exact key h2
+            · split at h
+              · cases h
+              · rename_i s3 hg3
+                have o3 := onGcFinished_isOpen c hwf _ _ hg3 b hb
+                split at h
+                · injection h with h; injection h with h1' _; subst h1'
+                  exact key (o3 h2)
+                · rw [respond_isOpen c _ _ _ _ h] at h2
+                  exact key (o3 h2)
+  · cases h
+
+/-- what `on_last_parked` does to `stopped` / `resumes`: either nothing, or the GC ends: all
+stop-the-world buckets closed, `stopped = false`, one more `resume_mutators` -/
+theorem onLastParked_stopped (c : Cfg) (hwf : c.WF) (s s' : State) (tag : Nat) (r : LPR)
+    (h : onLastParked c s tag = some (s', r)) :
+    (s'.stopped = s.stopped ∧ s'.resumes = s.resumes ∧ s'.gcDone = s.gcDone ∧ s'.stops = s.stops) ∨
+    (s'.stopped = false ∧ s'.resumes = s.resumes + 1 ∧ s'.gcDone = s.gcDone + 1 ∧ s'.stops = s.stops ∧
+      s.current = some .gc ∧ ∀ b, b < c.L → (c.info b).isStw = true → (s'.bkt b).isOpen = false ∧ (s'.bkt b).q = []) := by
+  have hrs : ∀ (t t' : State) (r' : LPR), respond c t tag = some (t', r') →
+      t'.stopped = t.stopped ∧ t'.resumes = t.resumes ∧ t'.stops = t.stops := by
+    intro t t' r' h
+    unfold respond at h
+    split at h
+    · cases h
+    · split at h
+      · injection h with h; injection h with h1 _; subst h1; exact ⟨rfl, rfl, rfl⟩
+      · split at h
+        · injection h with h; injection h with h1 _; subst h1; exact ⟨rfl, rfl, rfl⟩
+        · split at h
+          · injection h with h; injection h with h1 _; subst h1; exact ⟨rfl, rfl, rfl⟩
+          · injection h with h; injection h with h1 _; subst h1; exact ⟨rfl, rfl, rfl⟩
+  have hge := onLastParked_gc_end c hwf s s' tag r h
+  unfold onLastParked at h
+  split at h
+  · obtain ⟨a1, a2, a3⟩ := hrs _ _ _ h
+    exact Or.inl ⟨a1, a2, respond_gcDone c _ _ _ _ h, a3⟩
+  · split at h
+    · cases h
+    · split at h
+      · cases h
+      · split at h
+        · injection h with h; injection h with h1 _; subst h1; exact Or.inl ⟨rfl, rfl, rfl, rfl⟩
+        · split at h
+          · injection h with h; injection h with h1 _; subst h1
+            have sb := sbb_schedSentinels c s
+            exact Or.inl ⟨sb.stopped, sb.counters.1, sb.counters.2.2.1, sb.counters.2.1⟩
+          · have sb := (sbb_schedSentinels c s).trans (sbb_updateBuckets c (schedSentinels c s).1)
+            split at h
+            · injection h with h; injection h with h1 _; subst h1
+              exact Or.inl ⟨sb.stopped, sb.counters.1, sb.counters.2.2.1, sb.counters.2.1⟩
+            · split at h
+              · cases h
+              · rename_i s3 hg3
+                right
+                -- the GC ends here
+                have hs3 : s3.stopped = false ∧ s3.resumes = s.resumes + 1 ∧ s3.stops = s.stops := by
+                  unfold onGcFinished at hg3
+                  split at hg3
+                  · cases hg3
+                  · split at hg3
+                    · cases hg3
+                    · split at hg3
+                      · cases hg3
+                      · rename_i s1 hc
+                        injection hg3 with hg3; subst hg3
+                        have c1 := (sbb_closeLoop c _ _ _ hc)
+                        have c2 := (sbb_schedConcurrent c s1)
+                        refine ⟨rfl, ?_, ?_⟩
+                        · show (schedConcurrent c s1).resumes + 1 = _
+                          rw [c2.counters.1, c1.counters.1]; show (updateBuckets c (schedSentinels c s).1).1.resumes + 1 = _
+                          rw [sb.counters.1]
+                        · show (schedConcurrent c s1).stops = _
+                          rw [c2.counters.2.1, c1.counters.2.1]; show (updateBuckets c (schedSentinels c s).1).1.stops = _
+                          rw [sb.counters.2.1]
+                rcases hge with hge | ⟨g1, g2, g3⟩
+                · exfalso
+                  have : s'.gcDone = s.gcDone + 1 := by
+                    have g3' : s3.gcDone = s.gcDone := (onGcFinished_gcDone c _ _ hg3).trans sb.counters.2.2.1
+                    split at h
+                    · injection h with h; injection h with h1 _; subst h1; show s3.gcDone + 1 = _; rw [g3']
+                    · rw [respond_gcDone c _ _ _ _ h]; show s3.gcDone + 1 = _; rw [g3']
+                  omega
+                · split at h
+                  · injection h with h; injection h with h1 _; subst h1
+                    exact ⟨hs3.1, hs3.2.1, g1, hs3.2.2, g2, g3⟩
+                  · obtain ⟨a1, a2, a3⟩ := hrs _ _ _ h
+                    exact ⟨a1.trans hs3.1, a2.trans hs3.2.1, g1, a3.trans hs3.2.2, g2, g3⟩
+  · cases h
+
+
+/-- the part of the state the stop-the-world bracket is about -/
+structure SameS (s s' : State) : Prop where
+  stopped : s'.stopped = s.stopped
+  current : s'.current = s.current
+  stops : s'.stops = s.stops
+  resumes : s'.resumes = s.resumes
+  gcDone : s'.gcDone = s.gcDone
+  flags : ∀ b, (s'.bkt b).isOpen = (s.bkt b).isOpen ∧ (s'.bkt b).enabled = (s.bkt b).enabled
+
+theorem sameS_notifyOne {c : Cfg} {s s' : State} {x : Option Nat} (h : notifyOne c s x = some s') : SameS s s' := by
+  rw [notifyOne_same h]; exact ⟨rfl, rfl, rfl, rfl, rfl, fun _ => ⟨rfl, rfl⟩⟩
+
+theorem setBkt_flags {s : State} {b0 : Nat} {k : Bucket} (h1 : k.isOpen = (s.bkt b0).isOpen) (h2 : k.enabled = (s.bkt b0).enabled)
+    (b : Nat) : ((setBkt s b0 k).bkt b).isOpen = (s.bkt b).isOpen ∧ ((setBkt s b0 k).bkt b).enabled = (s.bkt b).enabled := by
+  simp only [setBkt]; split
+  · rename_i e; subst e; exact ⟨h1, h2⟩
+  · exact ⟨rfl, rfl⟩
+
+/-- actions that do not touch the bracket -/
+theorem step_other_S (c : Cfg) (s s' : State) (a : Act) (hs : step c s a = some s') :
+    (∃ w tag, a = .park w tag) ∨ (∃ w, a = .stopAll w) ∨ (∃ w b, a = .openFirst w b) ∨ (∃ w b v, a = .setEnabled w b v) ∨
+    (∃ b v, a = .initSetEnabled b v) ∨ (∃ w, a = .surrender w) ∨ SameS s s' := by
+  cases a
+  case park w tag => exact Or.inl ⟨w, tag, rfl⟩
+  case stopAll w => exact Or.inr (Or.inl ⟨w, rfl⟩)
+  case openFirst w b => exact Or.inr (Or.inr (Or.inl ⟨w, b, rfl⟩))
+  case setEnabled w b v => exact Or.inr (Or.inr (Or.inr (Or.inl ⟨w, b, v, rfl⟩)))
+  case initSetEnabled b v => exact Or.inr (Or.inr (Or.inr (Or.inr (Or.inl ⟨b, v, rfl⟩))))
+  case surrender w => exact Or.inr (Or.inr (Or.inr (Or.inr (Or.inr (Or.inl ⟨w, rfl⟩)))))
+  case wake w =>
+    right; right; right; right; right; right
+    simp only [step] at hs
+    split at hs
+    · injection hs with hs; subst hs
+      obtain ⟨p, _, he⟩ := afterUnpark_pc { s with parked := s.parked - 1 } w
+      rw [he]; exact ⟨rfl, rfl, rfl, rfl, rfl, fun _ => ⟨rfl, rfl⟩⟩
+    · cases hs
+  case makeRequest g x =>
+    right; right; right; right; right; right
+    simp only [step] at hs
+    have hc : SameS s (consumePending s g) := by
+      unfold consumePending; split <;> exact ⟨rfl, rfl, rfl, rfl, rfl, fun _ => ⟨rfl, rfl⟩⟩
+    split at hs
+    · cases hs
+    · split at hs
+      · split at hs
+        · injection hs with hs; subst hs; exact hc
+        · cases hs
+      · have h2 := sameS_notifyOne hs
+        have h3 : SameS s (setRequested (consumePending s g) g true) := by
+          cases g <;> exact ⟨hc.stopped, hc.current, hc.stops, hc.resumes, hc.gcDone, hc.flags⟩
+        exact ⟨h2.stopped.trans h3.stopped, h2.current.trans h3.current, h2.stops.trans h3.stops,
+          h2.resumes.trans h3.resumes, h2.gcDone.trans h3.gcDone,
+          fun b => ⟨(h2.flags b).1.trans (h3.flags b).1, (h2.flags b).2.trans (h3.flags b).2⟩⟩
+  case bucketNotifyOne w b0 x =>
+    right; right; right; right; right; right
+    simp only [step] at hs
+    split at hs
+    · exact sameS_notifyOne hs
+    · cases hs
+  case mutNotifyOne b0 x =>
+    right; right; right; right; right; right
+    simp only [step] at hs
+    split at hs
+    · exact sameS_notifyOne hs
+    · cases hs
+  all_goals
+    right; right; right; right; right; right
+    simp only [step] at hs
+    repeat' (split at hs)
+    all_goals first
+      | (injection hs with hs; subst hs
+         refine ⟨rfl, rfl, rfl, rfl, rfl, fun b => ?_⟩
+         first
+          | exact ⟨rfl, rfl⟩
+          | (simp only [setPc, setBuf, setBkt, pushBkt, bump]
+             split
+             · rename_i e; subst e; exact ⟨rfl, rfl⟩
+             · exact ⟨rfl, rfl⟩))
+      | cases hs
+
+
+theorem takeSentinel_enabled (s : State) (b k : Nat) : ((takeSentinel s b).bkt k).enabled = (s.bkt k).enabled := by
+  unfold takeSentinel
+  split
+  · simp only [emit, setBkt]; split
+    · rename_i e; subst e; rfl
+    · rfl
+  · rfl
+
+theorem schedLoop_enabled (bs : List Nat) : ∀ (s : State) (acc : Bool) (k : Nat),
+    ((schedSentinelsLoop s bs acc).1.bkt k).enabled = (s.bkt k).enabled := by
+  induction bs with
+  | nil => intro s acc k; rfl
+  | cons b bs ih =>
+    intro s acc k
+    unfold schedSentinelsLoop
+    split
+    · rw [ih, takeSentinel_enabled]
+    · exact ih _ _ _
+
+theorem openBkt_enabled (s : State) (b k : Nat) : ((openBkt s b).bkt k).enabled = (s.bkt k).enabled := by
+  simp only [openBkt, emit, setBkt]; split
+  · rename_i e; subst e; rfl
+  · rfl
+
+theorem updateLoop_enabled (c : Cfg) (bs : List Nat) : ∀ (s : State) (u : Bool) (k : Nat),
+    ((updateLoop c s bs u).1.bkt k).enabled = (s.bkt k).enabled := by
+  induction bs with
+  | nil => intro s u k; rfl
+  | cons b bs ih =>
+    intro s u k
+    unfold updateLoop
+    split
+    · exact ih _ _ _
+    · split
+      · exact ih _ _ _
+      · split
+        · split
+          · exact openBkt_enabled s b k
+          · split
+            · rw [takeSentinel_enabled, openBkt_enabled]
+            · rw [ih, takeSentinel_enabled, openBkt_enabled]
+        · exact ih _ _ _
+
+theorem respond_enabled (c : Cfg) (s s' : State) (tag : Nat) (r : LPR) (h : respond c s tag = some (s', r)) (k : Nat) :
+    (s'.bkt k).enabled = (s.bkt k).enabled := by
+  unfold respond at h
+  split at h
+  · cases h
+  · split at h
+    · injection h with h; injection h with h1 _; subst h1
+      simp only [addScheduleCollection, emit, pushBkt, setBkt, bump]
+      split
+      · rename_i e; subst e; rfl
+      · rfl
+    · split at h
+      · injection h with h; injection h with h1 _; subst h1; rfl
+      · split at h
+        · injection h with h; injection h with h1 _; subst h1; rfl
+        · injection h with h; injection h with h1 _; subst h1; rfl
+
+/-- `on_gc_finished` touches `enabled` / opens only the `Concurrent` bucket -/
+theorem onGcFinished_other (c : Cfg) (s s' : State) (h : onGcFinished c s = some s') (k : Nat) (hk : k ≠ c.concIdx) :
+    (s'.bkt k).enabled = (s.bkt k).enabled ∧ ((s'.bkt k).isOpen = true → (s.bkt k).isOpen = true) := by
+  unfold onGcFinished at h
+  split at h
+  · cases h
+  · split at h
+    · cases h
+    · split at h
+      · cases h
+      · rename_i s1 hc
+        injection h with h; subst h
+        obtain ⟨i1, _, i3, _⟩ := closeLoop_props c _ _ _ hc
+        have hbk : (resume (schedConcurrent c s1)).bkt k = s1.bkt k := by
+          simp only [resume, emit]
+          unfold schedConcurrent
+          split <;> simp [emit, setBkt, hk]
+        rw [hbk]
+        exact ⟨(i3 k).2.1, fun ho => i1 k ho⟩
+
+/-- which buckets `on_last_parked` can open, and that it changes `enabled` only for `Concurrent` -/
+theorem onLastParked_flags (c : Cfg) (s s' : State) (tag : Nat) (r : LPR)
+    (h : onLastParked c s tag = some (s', r)) (k : Nat) (hk : k ≠ c.concIdx) :
+    (s'.bkt k).enabled = (s.bkt k).enabled ∧
+    ((s.bkt k).isOpen = false → (s'.bkt k).isOpen = true → (c.info k).isSeq = true) := by
+  unfold onLastParked at h
+  split at h
+  · exact ⟨respond_enabled c _ _ _ _ h k, fun h1 h2 => by rw [respond_isOpen c _ _ _ _ h, h1] at h2; cases h2⟩
+  · split at h
+    · cases h
+    · split at h
+      · cases h
+      · split at h
+        · injection h with h; injection h with h1' _; subst h1'
+          exact ⟨rfl, fun h1 h2 => by rw [h1] at h2; cases h2⟩
+        · have e1 : ((schedSentinels c s).1.bkt k).enabled = (s.bkt k).enabled := by
+            unfold schedSentinels; simp only [emit]; exact schedLoop_enabled _ s false k
+          split at h
+          · injection h with h; injection h with h1' _; subst h1'
+            exact ⟨e1, fun h1 h2 => by rw [schedSentinels_isOpen, h1] at h2; cases h2⟩
+          · have e2 : ((updateBuckets c (schedSentinels c s).1).1.bkt k).enabled = (s.bkt k).enabled := by
+              unfold updateBuckets; simp only [emit]; rw [updateLoop_enabled]; exact e1
+            have o2 : (s.bkt k).isOpen = false → ((updateBuckets c (schedSentinels c s).1).1.bkt k).isOpen = true →
+                (c.info k).isSeq = true := by
+              intro h1 h2
+              have h2' : ((updateLoop c (schedSentinels c s).1 (List.range c.L) false).1.bkt k).isOpen = true := h2
+              exact (updateLoop_opens c (schedSentinels c s).1 _ _ false (fun _ => ⟨rfl, rfl⟩) k h2'
+                (by rw [schedSentinels_isOpen]; exact h1)).1
+            split at h
+            · injection h with h; injection h with h1' _; subst h1'
+              exact ⟨e2, o2⟩
+            · split at h
+              · cases h
+              · rename_i s3 hg3
+                obtain ⟨e3, o3⟩ := onGcFinished_other c _ _ hg3 k hk
+                split at h
+                · injection h with h; injection h with h1' _; subst h1'
+                  exact ⟨e3.trans e2, fun h1 h2 => o2 h1 (o3 h2)⟩
+                · refine ⟨(respond_enabled c _ _ _ _ h k).trans (e3.trans e2), fun h1 h2 => ?_⟩
+                  rw [respond_isOpen c _ _ _ _ h] at h2
+                  exact o2 h1 (o3 h2)
+  · cases h
+
+theorem onLastParked_current (c : Cfg) (s s' : State) (tag : Nat) (r : LPR)
+    (h : onLastParked c s tag = some (s', r)) (hc : s.current = some .gc) (hg : s'.gcDone = s.gcDone) :
+    s'.current = some .gc := by
+  unfold onLastParked at h
+  split at h
+  · rename_i hn; rw [hn] at hc; cases hc
+  · split at h
+    · cases h
+    · split at h
+      · cases h
+      · split at h
+        · injection h with h; injection h with h1' _; subst h1'; exact hc
+        · split at h
+          · injection h with h; injection h with h1' _; subst h1'
+            rw [(sbb_schedSentinels c s).current]; exact hc
+          · split at h
+            · injection h with h; injection h with h1' _; subst h1'
+              rw [(sbb_updateBuckets c _).current, (sbb_schedSentinels c s).current]; exact hc
+            · split at h
+              · cases h
+              · rename_i s3 hg3
+                exfalso
+                have g3 : s3.gcDone = s.gcDone :=
+                  (onGcFinished_gcDone c _ _ hg3).trans
+                    (((sbb_updateBuckets c _).counters.2.2.1).trans (sbb_schedSentinels c s).counters.2.2.1)
+                split at h
+                · injection h with h; injection h with h1' _; subst h1'
+                  have : s3.gcDone + 1 = s.gcDone := hg
+                  omega
+                · have := respond_gcDone c _ _ _ _ h
+                  have h4 : (completeGc s3).gcDone = s3.gcDone + 1 := rfl
+                  omega
+  · rename_i g hne hs; rw [hs] at hc; cases hc; exact absurd rfl (hne)
+
+
+/-- the stop-the-world bracket -/
+structure InvS (c : Cfg) (s : State) : Prop where
+  firstEnabled : ∀ f, (c.info f).isFirstStw = true → (s.bkt f).enabled = true
+  openStopped : ∀ b, b < c.L → (c.info b).isStw = true → (s.bkt b).isOpen = true → s.stopped = true
+  stoppedGc : s.stopped = true → s.current = some .gc
+  resumesEq : s.resumes = s.gcDone
+  stopsLe : s.stops ≤ s.resumes + (if s.stopped then 1 else 0)
+
+theorem invS_sameS {c : Cfg} {s s' : State} (h : InvS c s) (e : SameS s s') : InvS c s' where
+  firstEnabled f hf := by rw [(e.flags f).2]; exact h.firstEnabled f hf
+  openStopped b hb hs ho := by rw [e.stopped]; exact h.openStopped b hb hs (by rw [← (e.flags b).1]; exact ho)
+  stoppedGc hst := by rw [e.current]; exact h.stoppedGc (by rw [← e.stopped]; exact hst)
+  resumesEq := by rw [e.resumes, e.gcDone]; exact h.resumesEq
+  stopsLe := by rw [e.stops, e.resumes, e.stopped]; exact h.stopsLe
+
+theorem step_invS (c : Cfg) (hwf : c.WF2) (s s' : State) (a : Act) (hE : InvE c s) (h : InvS c s)
+    (hs : step c s a = some s') : InvS c s' := by
+  rcases step_other_S c s s' a hs with ⟨w, tag, rfl⟩ | ⟨w, rfl⟩ | ⟨w, b, rfl⟩ | ⟨w, b, v, rfl⟩ | ⟨b, v, rfl⟩ | ⟨w, rfl⟩ | e
+  · -- park
+    obtain ⟨hw, hpc, _, hcase⟩ := step_park_cases hs
+    rcases hcase with ⟨_, rfl⟩ | ⟨_, s1, r, hl, he⟩
+    · exact invS_sameS h ⟨rfl, rfl, rfl, rfl, rfl, fun _ => ⟨rfl, rfl⟩⟩
+    · -- `on_last_parked`
+      have hfc : ∀ f, (c.info f).isFirstStw = true → f ≠ c.concIdx := by
+        intro f hf e
+        have := hwf.first_is_stw f hf
+        rw [e, hwf.conc_not_stw] at this; cases this
+      have hfe : ∀ f, (c.info f).isFirstStw = true → (s1.bkt f).enabled = true := by
+        intro f hf
+        rw [(onLastParked_flags c _ _ _ _ hl f (hfc f hf)).1]; exact h.firstEnabled f hf
+      rcases onLastParked_stopped c hwf.toWF _ s1 tag r hl with ⟨a1, a2, a3, a4⟩ | ⟨a1, a2, a3, a4, a5, a6⟩
+      · -- no GC end: buckets may have been opened
+        rw [he]
+        refine ⟨hfe, ?_, ?_, ?_, ?_⟩
+        · intro b hb hstw ho
+          show s1.stopped = true
+          rw [a1]; show s.stopped = true
+          cases hob : (s.bkt b).isOpen with
+          | true => exact h.openStopped b hb hstw hob
+          | false =>
+            -- opened inside `on_last_parked`: sequentially opened, so the first STW bucket was open
+            have hseq : (c.info b).isSeq = true := by
+              rw [hwf.seq_def, hstw]
+              cases hf : (c.info b).isFirstStw with
+              | false => rfl
+              | true =>
+                exfalso
+                have := (onLastParked_flags c _ _ _ _ hl b (hfc b hf)).2 hob ho
+                rw [hwf.seq_def, hf] at this; simp at this
+            obtain ⟨f, hfL, hff⟩ := hwf.first_exists
+            have := onLastParked_opens_first c hwf.toWF _ s1 tag r hl b hseq hob ho f hfL hff (h.firstEnabled f hff)
+            exact h.openStopped f hfL (hwf.first_is_stw f hff) this
+        · intro hst
+          have hst' : s.stopped = true := by have : s1.stopped = true := hst; rw [a1] at this; exact this
+          have hg := h.stoppedGc hst'
+          show s1.current = some .gc
+          exact onLastParked_current c _ _ _ _ hl hg a3
+        · show s1.resumes = s1.gcDone; rw [a2, a3]; exact h.resumesEq
+        · show s1.stops ≤ s1.resumes + (if s1.stopped then 1 else 0); rw [a4, a2, a1]; exact h.stopsLe
+      · rw [he]
+        refine ⟨hfe, ?_, ?_, ?_, ?_⟩
+        · intro b hb hstw ho; rw [(a6 b hb hstw).1] at ho; cases ho
+        · intro hst; have : s1.stopped = true := hst; rw [a1] at this; cases this
+        · show s1.resumes = s1.gcDone; rw [a2, a3, h.resumesEq]
+        · show s1.stops ≤ s1.resumes + (if s1.stopped then 1 else 0)
+          rw [a4, a2, a1]
+          have := h.stopsLe
+          split at this <;> simp <;> omega
+  · -- stopAll
+    simp only [step] at hs
+    split at hs
+    · rename_i hg; injection hs with hs; subst hs
+      refine ⟨h.firstEnabled, fun _ _ _ _ => rfl, fun _ => hg.2.2.1, h.resumesEq, ?_⟩
+      have := h.stopsLe
+      have hns : s.stopped = false := by simpa using hg.2.2.2
+      rw [hns] at this
+      simp at this ⊢; omega
+    · cases hs
+  · -- openFirst
+    simp only [step] at hs
+    split at hs
+    · rename_i hg; injection hs with hs; subst hs
+      refine ⟨?_, ?_, h.stoppedGc, h.resumesEq, h.stopsLe⟩
+      · intro f hf
+        simp only [setBkt]; split
+        · rename_i e; subst e; exact h.firstEnabled f hf
+        · exact h.firstEnabled f hf
+      · intro b' _ _ _; exact hg.2.2.2.2.1
+    · cases hs
+  · -- setEnabled
+    simp only [step] at hs
+    split at hs
+    · rename_i hg; injection hs with hs; subst hs
+      refine ⟨?_, ?_, h.stoppedGc, h.resumesEq, h.stopsLe⟩
+      · intro f hf
+        simp only [setBkt]; split
+        · rename_i e; subst e; exact absurd hf hg.2.2.2
+        · exact h.firstEnabled f hf
+      · intro b' hb' hstw ho
+        apply h.openStopped b' hb' hstw
+        simp only [setBkt] at ho; split at ho
+        · rename_i e; subst e; exact ho
+        · exact ho
+    · cases hs
+  · -- initSetEnabled
+    simp only [step] at hs
+    split at hs
+    · rename_i hg; injection hs with hs; subst hs
+      refine ⟨?_, ?_, h.stoppedGc, h.resumesEq, h.stopsLe⟩
+      · intro f hf
+        simp only [setBkt]; split
+        · rename_i e; subst e; exact absurd hf hg.2.1
+        · exact h.firstEnabled f hf
+      · intro b' hb' hstw ho
+        apply h.openStopped b' hb' hstw
+        simp only [setBkt] at ho; split at ho
+        · rename_i e; subst e; exact ho
+        · exact ho
+    · cases hs
+  · -- surrender: an exit goal is current, so the mutators are not stopped
+    simp only [step] at hs
+    split at hs
+    · split at hs
+      · rename_i hg
+        have hns : s.stopped = false := by
+          cases hst : s.stopped with
+          | false => rfl
+          | true =>
+            obtain ⟨g, hg1, hg2⟩ := hE.exited w hg.1 hg.2
+            rw [h.stoppedGc hst] at hg1; cases hg1; cases hg2
+        split at hs <;> (injection hs with hs; subst hs)
+        · refine ⟨h.firstEnabled, h.openStopped, fun hst => ?_, h.resumesEq, h.stopsLe⟩
+          have : s.stopped = true := hst
+          rw [hns] at this; cases this
+        · exact ⟨h.firstEnabled, h.openStopped, h.stoppedGc, h.resumesEq, h.stopsLe⟩
+      · cases hs
+    · cases hs
+  · exact invS_sameS h e
+
+
+theorem init_invS (c : Cfg) (hwf : c.WF2) : InvS c (init c) where
+  firstEnabled f hf := by simp only [init, initBucket]; exact hwf.first_enabled f hf
+  openStopped b _ hs ho := by simp only [init, initBucket] at ho; rw [hwf.stw_closed b hs] at ho; cases ho
+  stoppedGc h := by simp [init] at h
+  resumesEq := rfl
+  stopsLe := by simp [init]
+
+/-- all invariants used by C11 along every run -/
+theorem reachable_invS {c : Cfg} (hwf : c.WF2) {s : State} (h : Reachable c s) : InvA c s ∧ InvE c s ∧ InvS c s := by
+  obtain ⟨run, hr⟩ := h
+  exact exec_some_induct c (fun s => InvA c s ∧ InvE c s ∧ InvS c s)
+    (fun s s' a hh hs => ⟨step_invA c s s' a hh.1 hs, step_invE c hwf.npos s s' a hh.1 hh.2.1 hs,
+      step_invS c hwf s s' a hh.2.1 hh.2.2 hs⟩)
+    run _ _ ⟨init_invA c, init_invE c, init_invS c hwf⟩ hr
+
 end Mmtk.Sched
